@@ -613,11 +613,12 @@ render_duration(const struct regress_invocation *ri, struct arena_scope *s)
 static const char *
 render_rate(const struct regress_invocation *ri, struct arena_scope *s)
 {
-	float rate = 0;
+	int rate = 0;
 
 	if (ri->total > 0)
-		rate = 1 - (ri->fail / (float)ri->total);
-	return arena_sprintf(s, "%d%%", (int)(rate * 100));
+		rate = (int)(((int64_t)(ri->total - ri->fail) * 100) /
+		    ri->total);
+	return arena_sprintf(s, "%d%%", rate);
 }
 
 static int
